@@ -197,6 +197,7 @@ def roles_run(ctx):
                 dict(programs=10000, max_calls=150, corpus=f"{ctx['root']}/corpus/roles"),
                 dict(programs=1000, max_calls=500, corpus=None)]
     violations, hist, samples = [], {}, []
+    defuse = {}
     programs = distinct = disagreements = blocks = 0
     for n, r in enumerate(runs):
         out = f"{work}/run{n}"
@@ -223,6 +224,29 @@ def roles_run(ctx):
             for l in read_lines(f"{out}/roles.model.full"):
                 if l.startswith(keep) or l in ("pc", "pp", "cmult", "pmult", "reads", "net", "build err"):
                     fh.write(l + "\n")
+        # def-before-use certificate (lean/P3R/Model/DefUse.lean; P3R.C09T.compiled_bus_balanced_of_defuse): evaluated by
+        # the driver on the compiled circuit (c=) and on the two earlier stages (l= lowering output, d= de-duplicated list)
+        cur_ok, cur_net = False, None
+        for l in read_lines(f"{out}/roles.model.full"):
+            if l.startswith("prog "):
+                cur_ok, cur_net = False, None
+            elif l == "prep ok":
+                cur_ok = True
+            elif l.startswith("net"):
+                cur_net = l.split()[1:]
+            elif l.startswith("defuse "):
+                kv = dict(t.split("=") for t in l.split()[1:])
+                for k, v in kv.items():
+                    defuse[f"{k}={v}"] = defuse.get(f"{k}={v}", 0) + 1
+                if cur_ok:
+                    balanced = cur_net is not None and all(x == "0" for x in cur_net)
+                    key = f"prep-ok.cert={kv.get('c')}.balanced={int(balanced)}"
+                    defuse[key] = defuse.get(key, 0) + 1
+                    if kv.get("c") == "1" and not balanced:
+                        violations.append({"class": "model-disagreement",
+                                           "what": "defUse certificate holds but the model's net multiplicities are not all zero "
+                                                   "(contradicts P3R.C09T.compiled_bus_balanced_of_defuse)",
+                                           "replay": {"correspondence": "driver defuse line vs net line"}, "no_input": True})
         diffs, nb = diff_blocks(f"{out}/roles.impl", f"{out}/roles.model", f"{out}/roles.cases")
         blocks += nb
         disagreements += len(diffs)
@@ -250,6 +274,11 @@ def roles_run(ctx):
                    "of every row of every real table AIR evaluated and audited per slot (harness/src/c09n.rs), a sample proved and verified",
            "samples": samples[:2], "input_distribution": hist,
            "traces_validated_against_impl": blocks, "disagreements_checked": disagreements}
+    cov["defuse_certificate"] = {"counts": defuse,
+        "rule": "c = certificate of the compiled circuit (hypothesis of compiled_bus_balanced_of_defuse), l / d = of the lowering's output / "
+                "the de-duplicated list; prep-ok.cert=1.balanced=1 are the circuits on which the theorem applies and the real columns "
+                "(compared cell by cell above) balance; cert=0 on a compiled circuit would be a counterexample to the unproved "
+                "step 'compile => defUse' (none expected from the public builder API with primitive tables)"}
     for k in ("busaudit_class_counts", "busaudit_samples", "busaudit_proved", "busaudit_prove_notes"):
         if k in npo_cov:
             cov[k] = npo_cov[k]
@@ -300,12 +329,19 @@ CHECKS = {
         "assumptions": ["zero divisors: no guarantee is checked when some divisor evaluates to 0 (as the property states)"],
     },
     "C09": {
-        "lean_modules": ["P3R.Props.C09"],
+        "lean_modules": ["P3R.Props.C09", "P3R.Model.DefUse", "P3R.Props.C09Total", "P3R.Witness.C09Total"],
         "lean_exes": ["p3r_driver_c09n"],
         "theorems": ["P3R.C09.one_creator", "P3R.C09.mult_eq_reads", "P3R.C09.created_iff_defined",
                      "P3R.C09.net_zero_iff", "P3R.C09.bus_balanced",
                      # the same invariant for the scan extended with table-backed non-primitive rows (generic row kind)
-                     "P3R.C09.scanR_inv", "P3R.C09.one_creator_npo", "P3R.C09.mult_eq_reads_npo", "P3R.C09.net_zero_iff_npo"],
+                     "P3R.C09.scanR_inv", "P3R.C09.one_creator_npo", "P3R.C09.mult_eq_reads_npo", "P3R.C09.net_zero_iff_npo",
+                     # hwf discharged by a static def-before-use certificate of the op list (Model/DefUse.lean)
+                     "P3R.C09T.serve_spec", "P3R.C09T.row_inv", "P3R.C09T.defuse_sound", "P3R.C09T.compiled_bus_balanced_of_defuse",
+                     # exact order-free characterisation: balanced <=> every b-column slot ends up defined
+                     "P3R.C09T.serveAll_gen", "P3R.C09T.reads_defined_iff", "P3R.C09T.bus_balanced_iff",
+                     "P3R.Witness.C09Total.good_reachable", "P3R.Witness.C09Total.good_balanced",
+                     "P3R.Witness.C09Total.bad_reachable", "P3R.Witness.C09Total.bad_unbalanced", "P3R.Witness.C09Total.bad_role",
+                     "P3R.Witness.C09Total.defuse_hypothesis_needed", "P3R.Witness.C09Total.bad_then_a_balanced"],
         "run": roles_run,
         "trusted_base": ["non-primitive rows: the theorems cover the role scan of generate_preprocessed_columns for ANY per-plug-in request function; "
                          "the concrete request functions (posRow / recRow / sumExposed: Poseidon2 sponge + arity-2/arity-4 Merkle rows, recompose with / without "
